@@ -140,7 +140,7 @@ func newRealSession(log *Log, rs *realServer, o opts, sid int, budget time.Durat
 	_ = rc.Control(func(fd uintptr) { r.sfd = int(fd) })
 	r.cfd = ws.RawFd()
 	ws.SetMaxMessageSize(16 << 20)
-	r.session = &session{ws: ws, log: log, o: o, sid: sid, buf: make([]byte, 1<<16)}
+	r.session = &session{ws: ws, log: log, o: o, sid: sid, buf: make([]byte, 1<<16), ownTok: true}
 	ws.SetControlCallback(func(mt websocket.MessageType, payload []byte) {
 		r.gotControl(r.readID, websocket.Opcode(mt), payload)
 	})
@@ -292,7 +292,7 @@ func (r *realSession) close() {
 func (r *realSession) step(i int, g Step) error {
 	switch g.Op {
 	case "peer":
-		r.peer(i, g.K, g.T)
+		r.peer(i, g.K, g.T, g.Glue == 1) // on a socket everything unread coalesces anyway
 	case "call":
 		c := g.C
 		if g.Api == "AsyncClose" {
@@ -307,7 +307,7 @@ func (r *realSession) step(i int, g Step) error {
 		} else {
 			r.wlenOf = nil
 		}
-		r.call(g.Api, g.T, c)
+		r.callThen(g.Api, g.T, c, g.Then)
 	case "env": // one poll cycle
 		r.log.Env(g.K)
 		reps := g.N
